@@ -798,8 +798,8 @@ def run(ck: core.Check):
     # generated programs (oracle on all; naming correspondence on the 'naming' slice)
     n_oracle = pick(1600, 12000)
     n_naming = pick(500, 5000)
-    n_hist = pick(260, 3000)
-    n_typed = len(TY.all_cases()) + len(TY.all_optseq_cases()) + pick(200, 3000)
+    n_hist = pick(260, 1500)
+    n_typed = len(TY.all_cases()) + len(TY.all_optseq_cases()) + pick(200, 2000)
     tasks = ([(ck.seed, i, "oracle") for i in range(n_oracle)] + [(ck.seed, 10**6 + i, "naming") for i in range(n_naming)]
              + [(ck.seed, 2 * 10**6 + i, "hist") for i in range(n_hist)]
              + [(ck.seed, 3 * 10**6 + i, "typed") for i in range(n_typed)])
